@@ -3,6 +3,9 @@
 import json, os
 HERE = os.path.dirname(os.path.dirname(os.path.abspath(__file__)))
 CHECKS = {
+ "C03": dict(cat="model_checking", technique="TLA+ nearest-mutation genotype definition; TLC trace validation of Variant decode histories and whole-sequence genotype views",
+    text="TskGenotypes defines the allele of every node at every site (nearest mutation, ancestral otherwise, missing rule). Real Variant objects are driven through arbitrary decode orders with copies, and variants/genotype_matrix/haplotypes/alignments are called with sample subsets incl. non-sample nodes, isolated_as_missing, user allele lists and intervals; TLC validates every recorded result (one TLC state per decode call, so the result is shown independent of history). Inputs: TLC-enumerated universe with an exhaustive <=2-mutation layer plus random tree sequences.",
+    note="Alleles are abstract tokens; order of alleles after the first unconstrained; documented errors (non-sample nodes with isolated_as_missing, alignments with isolated samples) are accepted as such.", ref="DESIGN.md §3 C03"),
  "C01": dict(cat="model_checking", technique="TLA+ definitional tree semantics (TskTrees/TskTreeViews): TLC-enumerated universe replayed into the library, every tree/view validated by TLC",
     text="TLC enumerates every node/edge table of the small-scope universe (4 nodes, L=3, <=3 edges; thorough adds 5 nodes) and the harness loads each into the real library; every tree reported by iteration/at/at_index/first/last/reversed and every derived view (linked arrays, roots, counts, sample lists, MRCA/depth/branch lengths, 8 traversal orders, sites/mutations, edge_diffs both directions, edgesets, breakpoints) is then validated by TLC against the declarative definitions; random larger tree sequences extend this. The incremental algorithm's design is model-checked in MC_TreeCursor (C06).",
     note="Bounded universe; tree options and the site layer are sampled per element; times integer-valued so branch lengths are exact; traversal orders relative to reported child order.", ref="DESIGN.md §3 C01"),
